@@ -103,8 +103,9 @@ def r1_raw_read(ctx, R1):
     ctx.sites(R1, npre, 1, "rows of _raw_read that return a piece and close the stdlib response")
 
 
-def r2_chunk_size_line(ctx, R2):
+def r2_chunk_size_line(ctx, R2, R10=None):
     m = ctx.model
+    seen10 = set()
     uc = m.method(HR, "_update_chunk_length")
     rule = GenRule(ctx, uc.module, inline=_inl(m, uc, drop=("close",)), raising={"int": "builtins.ValueError"}, field_consts={"self.chunk_left": const(None)})
     rows = effect_rows(ctx, uc, rule, HR)
@@ -121,7 +122,7 @@ def r2_chunk_size_line(ctx, R2):
             for s_, (t_, _) in r.st.facts.items():
                 if s_ in FIELDS:
                     fld = t_
-            ok = r.out in ("raise:InvalidChunkLength", "raise:ProtocolError") and closed and bool(fault)
+            ok = r.out in ("raise:InvalidChunkLength", "raise:ProtocolError") and closed  # (refused by int() or by an explicit shape test)
             ctx.ob(R2, uc.qual, f"unparsable size line -> {r.out} after close={closed}", ok,
                    "" if ok else "a broken chunk header does not end in a urllib3 protocol error with the response closed", witness=r.witness(), node=uc.node)
         else:
@@ -136,6 +137,25 @@ def r2_chunk_size_line(ctx, R2):
             nok += 1
             ok = len(st) == 1 and destruct(st[0])[0] == "int" and len(destruct(st[0])[1]) == 2 and destruct(st[0])[1][0] in FIELDS and destruct(st[0])[1][1] in ("16", "base=16")
             ctx.ob(R2, uc.qual, "size line parsed as int(line-before-';', 16) into chunk_left", ok, f"chunk_left = {st}", witness=r.witness(), node=uc.node)
+            if R10 is not None:
+                # int(x, 16) is not a validator: it also accepts '+0', '-0', ' 0', '0x0', '0_0'.  Something must have decided the SHAPE of the
+                # field (a pattern applied to it, a character test) on the path that accepts it.
+                fld = next((a_ for a_ in FIELDS if any(a_ in t_ for t_ in st)), None)
+                decided = []
+                if fld is not None:
+                    for k_, v_ in r.st.facts.items():
+                        if isinstance(k_, str) and fld in k_ and k_ != fld and not k_.startswith("int(") and (v_[0] is not None or v_[1] is not None):
+                            decided.append(k_)
+                    for k_, v_ in r.st.ts.items():
+                        if isinstance(k_, tuple) and len(k_) == 4 and k_[0] == "cmp" and (fld in str(k_[1]) or fld in str(k_[3])) and not str(k_[1]).startswith("int(") and v_ is not None:
+                            decided.append(str(k_))
+                key10 = bool(decided)
+                if key10 not in seen10:
+                    seen10.add(key10)
+                    ctx.ob(R10, uc.qual, "the chunk-size field is checked to be hex digits before it is converted", bool(decided),
+                           "" if decided else "int(field, 16) is the only test: it accepts a sign, surrounding blanks, '_' and a '0x' prefix - a size line corrupted in one byte "
+                           "('a0' -> '+0', '-0', ' 0') is taken for the terminating zero-size chunk and the rest of the body is dropped without an error (http.client's own chunk reader, used by read(), parses the same way)",
+                           witness=r.witness(), node=uc.node)
     ctx.sites(R2, n, 1, "error exits of _update_chunk_length")
     ctx.sites(R2, nok, 1, "parsing exits of _update_chunk_length")
     ctx.ob(R2, uc.qual, "both refusals exist: InvalidChunkLength for garbage, ProtocolError for a missing line", {r.out for r in rows if not r.returns} >= {"raise:InvalidChunkLength", "raise:ProtocolError"},
